@@ -2,6 +2,7 @@ import BleveModel.Proto
 import BleveModel.Drv.C07
 import BleveModel.Drv.C06
 import BleveModel.Drv.C15
+import BleveModel.Drv.C10
 
 open Bleve.Proto
 
@@ -24,6 +25,7 @@ def main (args : List String) : IO UInt32 := do
   let stdout ← IO.getStdout
   match args with
   | ["c07"] => loop stdin stdout Bleve.Drv.C07.step; stdout.flush; return 0
+  | ["c10"] => loop stdin stdout Bleve.Drv.C10.step; stdout.flush; return 0
   | ["c06"] => loop stdin stdout Bleve.Drv.C06.step; stdout.flush; return 0
   | ["c15"] => loopS stdin stdout ({} : Bleve.Drv.C15.S) Bleve.Drv.C15.step; stdout.flush; return 0
   | _ => IO.eprintln "usage: drv <driver>"; return 2
